@@ -722,4 +722,321 @@ theorem slash_eq (cfg : Config) (ctx : Ctx) (s : State) (idx p : Nat)
   · have hnone : s.validators[idx]? = none := by simp; omega
     simp [initiateValidatorExit, hnone, hidx, optRes, bind, Res.bind]
 
+/-! ### `slash_validator` of `S`: monadic version = pure core; proposer slashing -/
+
+/-- what `initiate_validator_exit` does to entry `j` of the registry: nothing, or (entry `i`, not yet exiting) a new
+exit epoch at or after the activation-exit epoch and the matching withdrawable epoch -/
+theorem initiate_pure_get (cfg : Config) (cur : Nat) (vals : List Validator) (i j : Nat) (v w : Validator)
+    (h1 : vals[j]? = some v) (h2 : (initiate_validator_exit_pure cfg cur vals i)[j]? = some w) :
+    w = v ∨ (j = i ∧ v.exit_epoch = FAR_FUTURE_EPOCH ∧ ∃ e, compute_activation_exit_epoch cfg cur ≤ e ∧
+      w = { v with exit_epoch := e, withdrawable_epoch := e + cfg.MIN_VALIDATOR_WITHDRAWABILITY_DELAY }) := by
+  unfold initiate_validator_exit_pure at h2
+  cases hi : vals[i]? with
+  | none => rw [hi] at h2; simp only at h2; rw [h1] at h2; cases h2; exact Or.inl rfl
+  | some u =>
+    rw [hi] at h2
+    simp only at h2
+    split at h2
+    · rw [h1] at h2; cases h2; exact Or.inl rfl
+    · rename_i hfar
+      by_cases hij : i = j
+      · subst hij
+        rw [h1] at hi; cases hi
+        have hlt : i < vals.length := (List.getElem?_eq_some_iff.mp h1).1
+        simp only [List.getElem?_set_self hlt, Option.some.injEq] at h2
+        right
+        refine ⟨rfl, by simpa using hfar, _, ?_, h2.symm⟩
+        rw [spec_max_eq]
+        have := maxOf_ge (vals.map (·.exit_epoch)) (compute_activation_exit_epoch cfg cur)
+        split <;> omega
+      · rw [List.getElem?_set_ne hij] at h2
+        rw [h1] at h2; cases h2; exact Or.inl rfl
+
+
+theorem duties_initiate (cfg : Config) (cur : Nat) (vals : List Validator) (i : Nat) (hcur : cur < FAR_FUTURE_EPOCH) :
+    ∀ (j : Nat) (v v' : Validator), vals[j]? = some v → (initiate_validator_exit_pure cfg cur vals i)[j]? = some v' →
+      v'.effective_balance = v.effective_balance ∧ is_active_validator v' cur = is_active_validator v cur := by
+  intro j v v' h1 h2
+  rcases initiate_pure_get cfg cur vals i j v v' h1 h2 with h | ⟨_, hfar, e, he, hw⟩
+  · subst h; exact ⟨rfl, rfl⟩
+  · subst hw
+    refine ⟨rfl, ?_⟩
+    unfold is_active_validator
+    simp only
+    unfold compute_activation_exit_epoch at he
+    have h1 : cur < e := by omega
+    have h2 : cur < v.exit_epoch := by rw [hfar]; exact hcur
+    simp [h1, h2]
+
+/-- `initiate_validator_exit` succeeds with the pure registry update (index in range, epochs inside `uint64`) -/
+theorem initiate_exit_ok (cfg : Config) (s : State) (index : Nat) (hidx : index < s.validators.length)
+    (hq : cfg.CHURN_LIMIT_QUOTIENT ≠ 0) (hreg : RegU64 s.validators) (hsmall : ExitSmall cfg s) :
+    initiate_validator_exit cfg s index =
+      .ok { s with validators := initiate_validator_exit_pure cfg (s.slot / cfg.SLOTS_PER_EPOCH) s.validators index } := by
+  unfold initiate_validator_exit get_current_epoch compute_epoch_at_slot
+  have h1 : idx s.validators index "validators" = Except.ok s.validators[index] := idx_ok _ _ _ hidx
+  generalize hvals : initiate_validator_exit_pure cfg (s.slot / cfg.SLOTS_PER_EPOCH) s.validators index = vals
+  have hlen : vals.length = s.validators.length := by rw [← hvals]; exact initiate_pure_length _ _ _ _
+  have hidx' : index < vals.length := by omega
+  have h2 : idx vals index "validators" = Except.ok vals[index] := idx_ok _ _ _ hidx'
+  have hb : vals[index].exit_epoch < 2 ^ 64 ∧ vals[index].withdrawable_epoch < 2 ^ 64 := by
+    subst hvals
+    unfold initiate_validator_exit_pure
+    simp only [List.getElem?_eq_getElem hidx]
+    by_cases hfar : s.validators[index].exit_epoch ≠ FAR_FUTURE_EPOCH
+    · simp only [hfar, ne_eq, not_false_eq_true, if_true]
+      exact hreg _ (List.getElem_mem hidx)
+    · simp only [hfar, if_false, List.getElem_set_self]
+      rw [spec_max_eq]
+      unfold ExitSmall at hsmall
+      unfold compute_activation_exit_epoch
+      constructor <;> (split <;> omega)
+  simp only [h1, hq, if_false, hvals, h2, u64_ok _ _ hb.1, u64_ok _ _ hb.2, bind, Except.bind, pure, Except.pure]
+
+
+theorem toRes_eq_ok {α} (x : SM α) (a : α) (h : x = .ok a) : toRes x = Res.ok a := by rw [h]; rfl
+
+/-- the registry after `slash_validator`'s first half keeps slot duties: same effective balances and current-epoch activity -/
+theorem sameDuties_slashed (cfg : Config) (s s' : State) (i : Nat) (nv : Validator)
+    (hcur : s.slot / cfg.SLOTS_PER_EPOCH < FAR_FUTURE_EPOCH)
+    (hslot : s'.slot = s.slot) (hmix : s'.randao_mixes = s.randao_mixes)
+    (hvals : s'.validators = (initiate_validator_exit_pure cfg (s.slot / cfg.SLOTS_PER_EPOCH) s.validators i).set i nv)
+    (hnv : ∀ w, (initiate_validator_exit_pure cfg (s.slot / cfg.SLOTS_PER_EPOCH) s.validators i)[i]? = some w →
+      nv.effective_balance = w.effective_balance ∧ nv.activation_epoch = w.activation_epoch ∧ nv.exit_epoch = w.exit_epoch) :
+    SameDuties cfg s s' := by
+  refine ⟨hslot, hmix, ?_, ?_⟩
+  · rw [hvals, List.length_set, initiate_pure_length]
+  · intro j v v' h1 h2
+    unfold get_current_epoch compute_epoch_at_slot
+    rw [hvals] at h2
+    by_cases hij : i = j
+    · subst hij
+      have hlt : i < s.validators.length := (List.getElem?_eq_some_iff.mp h1).1
+      have hlt' : i < (initiate_validator_exit_pure cfg (s.slot / cfg.SLOTS_PER_EPOCH) s.validators i).length := by
+        rw [initiate_pure_length]; exact hlt
+      rw [List.getElem?_set_self hlt'] at h2
+      cases h2
+      have hw := List.getElem?_eq_getElem hlt'
+      obtain ⟨e1, e2, e3⟩ := hnv _ hw
+      have hd := duties_initiate cfg _ s.validators i hcur i v _ h1 hw
+      refine ⟨by rw [e1]; exact hd.1, ?_⟩
+      rw [← hd.2]
+      unfold is_active_validator
+      rw [e2, e3]
+    · rw [List.getElem?_set_ne hij] at h2
+      exact duties_initiate cfg _ s.validators i hcur j v v' h1 h2
+
+
+set_option maxHeartbeats 1000000 in
+/-- the monadic `slash_validator` of `S` = its pure core (the run-time cross-check, proved) -/
+theorem slash_m_link (cfg : Config) (s : State) (i p : Nat)
+    (hp : Block.get_beacon_proposer_index cfg s = .ok p)
+    (hq : cfg.CHURN_LIMIT_QUOTIENT ≠ 0) (hreg : RegU64 s.validators) (hsmall : ExitSmall cfg s) (hs : SlashSmall cfg s)
+    (hz : cfg.EPOCHS_PER_SLASHINGS_VECTOR ≠ 0 ∧ min_slashing_penalty_quotient cfg s.fork ≠ 0 ∧
+          cfg.WHISTLEBLOWER_REWARD_QUOTIENT ≠ 0 ∧ cfg.PROPOSER_REWARD_QUOTIENT ≠ 0) :
+    toRes (Block.slash_validator_m cfg s i) = optRes (Block.slash_validator_pure cfg s i p) := by
+  obtain ⟨hz1, hz2, hz3, hz4⟩ := hz
+  unfold Block.slash_validator_m Block.slash_validator_pure get_current_epoch compute_epoch_at_slot
+  simp only [hq, if_false]
+  by_cases hidx : i < s.validators.length
+  · rw [toRes_bind, toRes_eq_ok _ _ (initiate_exit_ok cfg s i hidx hq hreg hsmall)]
+    simp only [res_bind_ok, hidx, not_true_eq_false, if_false]
+    have hcurfar : s.slot / cfg.SLOTS_PER_EPOCH < FAR_FUTURE_EPOCH := by
+      have := hs.epoch; unfold FAR_FUTURE_EPOCH; omega
+    have hframe : ∀ (s3 : State) (nv : Validator), s3.slot = s.slot → s3.randao_mixes = s.randao_mixes →
+        s3.validators = (initiate_validator_exit_pure cfg (s.slot / cfg.SLOTS_PER_EPOCH) s.validators i).set i nv →
+        (∀ w, (initiate_validator_exit_pure cfg (s.slot / cfg.SLOTS_PER_EPOCH) s.validators i)[i]? = some w →
+          nv.effective_balance = w.effective_balance ∧ nv.activation_epoch = w.activation_epoch ∧ nv.exit_epoch = w.exit_epoch) →
+        Block.get_beacon_proposer_index cfg s3 = .ok p := by
+      intro s3 nv h1 h2 h3 h4
+      rw [proposer_frame cfg s s3 (sameDuties_slashed cfg s s3 i nv hcurfar h1 h2 h3 h4)]
+      exact hp
+    generalize hvals : initiate_validator_exit_pure cfg (s.slot / cfg.SLOTS_PER_EPOCH) s.validators i = vals at *
+    have hvl : vals.length = s.validators.length := by rw [← hvals]; exact initiate_pure_length _ _ _ _
+    have hidx' : i < vals.length := by omega
+    have hv : vals[i]? = some vals[i] := List.getElem?_eq_getElem hidx'
+    have heff : vals[i].effective_balance = s.validators[i].effective_balance := by
+      apply initiate_pure_eff cfg (s.slot / cfg.SLOTS_PER_EPOCH) s.validators i i
+      · exact List.getElem?_eq_getElem hidx
+      · rw [hvals]; exact hv
+    have hmem : s.validators[i] ∈ s.validators := List.getElem_mem hidx
+    simp only [toRes_bind, toRes_idx, rget, hv, res_bind_ok, u64_ok _ _ hs.epoch, toRes_ok, toRes_ite, toRes_invalid, toRes_pure,
+      hz1, hz2, hz3, if_false]
+    cases hslv : s.slashings[s.slot / cfg.SLOTS_PER_EPOCH % cfg.EPOCHS_PER_SLASHINGS_VECTOR]? with
+    | none => rfl
+    | some sl =>
+      have hslmem : sl ∈ s.slashings := List.mem_of_getElem? hslv
+      have hw1 : sl + vals[i].effective_balance < 2 ^ 64 := by rw [heff]; exact hs.slashings sl hslmem _ hmem
+      have hor' : ¬ (False ∨ False ∨ s.fork = Fork.phase0 ∧ cfg.PROPOSER_REWARD_QUOTIENT = 0) := by simp [hz4]
+      simp only [res_bind_ok, u64_ok _ _ hw1, toRes_ok, hor', if_false]
+      unfold decrease_balance
+      simp only [toRes_bind, toRes_idx, rget, toRes_pure]
+      cases hb : s.balances[i]? with
+      | none => rfl
+      | some b =>
+        simp only [res_bind_ok]
+        have hframe' : ∀ (B SL : List Nat), Block.get_beacon_proposer_index cfg
+            { s with validators := vals.set i { vals[i] with slashed := true, withdrawable_epoch := max vals[i].withdrawable_epoch (s.slot / cfg.SLOTS_PER_EPOCH + cfg.EPOCHS_PER_SLASHINGS_VECTOR) }, balances := B, slashings := SL } = .ok p := by
+          intro B SL
+          exact hframe _ _ rfl rfl rfl (by intro w hw; rw [hv] at hw; cases hw; exact ⟨rfl, rfl, rfl⟩)
+        simp only [hframe']
+        simp only [toRes_ok, res_bind_ok, Option.getD_none, hz4, if_false]
+        generalize hE : vals[i].effective_balance = E at *
+        have hEb : ∀ x ∈ s.balances, x + 2 * E < 2 ^ 64 := fun x hx => by rw [heff]; exact hs.balances x hx _ hmem
+        have hEw : E * PROPOSER_WEIGHT < 2 ^ 64 := by rw [heff]; exact hs.eff _ hmem
+        generalize hQ : min_slashing_penalty_quotient cfg s.fork = Q at *
+        generalize hpen : E / Q = pen
+        generalize hnb : (if pen > b then 0 else b - pen) = nb
+        have hnb' : nb ≤ b := by rw [← hnb]; split <;> omega
+        have hbmem : b ∈ s.balances := List.mem_of_getElem? hb
+        have hb1 : ∀ x ∈ s.balances.set i nb, x + 2 * E < 2 ^ 64 := by
+          intro x hx
+          rcases List.mem_or_eq_of_mem_set hx with h | h
+          · exact hEb x h
+          · rw [h]; have := hEb b hbmem; omega
+        generalize s.balances.set i nb = bal1 at *
+        generalize hW : E / cfg.WHISTLEBLOWER_REWARD_QUOTIENT = W
+        have hWE : W ≤ E := by rw [← hW]; exact Nat.div_le_self _ _
+        have hfin : ∀ (pr : Nat) (V : List Validator) (SL : List Nat), pr ≤ W →
+            (toRes (increase_balance { s with validators := V, balances := bal1, slashings := SL } p pr) >>= fun a => toRes (increase_balance a p (W - pr))) =
+            optRes (match bal1[p]? with
+              | none => none
+              | some pb =>
+                match (bal1.set p (pb + pr))[p]? with
+                | none => none
+                | some pb2 => some { s with validators := V, slashings := SL, balances := (bal1.set p (pb + pr)).set p (pb2 + (W - pr)) }) := by
+          intro pr V SL hpr
+          unfold increase_balance
+          simp only [toRes_bind, toRes_idx, rget, toRes_pure]
+          cases hpb : bal1[p]? with
+          | none => rfl
+          | some pb =>
+            have hpl : p < bal1.length := (List.getElem?_eq_some_iff.mp hpb).1
+            have hpbm : pb ∈ bal1 := List.mem_of_getElem? hpb
+            have := hb1 pb hpbm
+            have h3 : (bal1.set p (pb + pr))[p]? = some (pb + pr) := by
+              rw [List.getElem?_set_self hpl]
+            simp only [res_bind_ok, u64_ok _ _ (show pb + pr < 2 ^ 64 by omega), toRes_ok, h3,
+              u64_ok _ _ (show pb + pr + (W - pr) < 2 ^ 64 by omega), optRes]
+        by_cases hf : s.fork = .phase0
+        · simp only [if_pos hf]
+          exact hfin (W / cfg.PROPOSER_REWARD_QUOTIENT) _ _ (Nat.div_le_self _ _)
+        · simp only [if_neg hf]
+          exact hfin (W * PROPOSER_WEIGHT / WEIGHT_DENOMINATOR) _ _ (by unfold PROPOSER_WEIGHT WEIGHT_DENOMINATOR; omega)
+  · have hnone : s.validators[i]? = none := by simp; omega
+    simp [initiate_validator_exit, hnone, hidx, optRes, toRes_bind, Spec.idx, invalid, throw, throwThe, MonadExceptOf.throw, toRes, bind, Except.bind, Res.bind]
+
+theorem toRes_crossCheck (name : String) (core : Option State) (r : SM State) (h : toRes r = optRes core) :
+    toRes (Block.crossCheck name core r) = optRes core := by
+  unfold Block.crossCheck
+  cases r with
+  | ok st =>
+    cases core with
+    | none => simp [toRes, optRes] at h
+    | some st' =>
+      have : st = st' := by simpa [toRes, optRes] using h
+      simp [this, toRes, optRes]
+  | error e =>
+    cases core with
+    | none => cases e <;> rfl
+    | some st' => simp [toRes, optRes] at h
+
+/-- `S`'s `slash_validator` (monadic version with its run-time comparison) = the pure core -/
+theorem slash_link (cfg : Config) (s : State) (i p : Nat)
+    (hp : Block.get_beacon_proposer_index cfg s = .ok p)
+    (hq : cfg.CHURN_LIMIT_QUOTIENT ≠ 0) (hreg : RegU64 s.validators) (hsmall : ExitSmall cfg s) (hs : SlashSmall cfg s)
+    (hz : cfg.EPOCHS_PER_SLASHINGS_VECTOR ≠ 0 ∧ min_slashing_penalty_quotient cfg s.fork ≠ 0 ∧
+          cfg.WHISTLEBLOWER_REWARD_QUOTIENT ≠ 0 ∧ cfg.PROPOSER_REWARD_QUOTIENT ≠ 0) :
+    toRes (Block.slash_validator cfg s i) = optRes (Block.slash_validator_pure cfg s i p) := by
+  unfold Block.slash_validator
+  simp only [hp]
+  exact toRes_crossCheck _ _ _ (slash_m_link cfg s i p hp hq hreg hsmall hs hz)
+
+/-- (d) `phase0.SlashValidator` = `S`'s `slash_validator`, accept/reject and post-state -/
+theorem slash_S_eq (cfg : Config) (ctx : Ctx) (s : State) (i p : Nat)
+    (hp : ctx.proposer = some p) (hps : Block.get_beacon_proposer_index cfg s = .ok p)
+    (hact : ctx.activeCount = (s.validators.filter (is_active_validator · (s.slot / cfg.SLOTS_PER_EPOCH))).length)
+    (hq : cfg.CHURN_LIMIT_QUOTIENT ≠ 0) (hreg : RegU64 s.validators) (hsmall : ExitSmall cfg s) (hs : SlashSmall cfg s)
+    (hz : cfg.EPOCHS_PER_SLASHINGS_VECTOR ≠ 0 ∧ min_slashing_penalty_quotient cfg s.fork ≠ 0 ∧
+          cfg.WHISTLEBLOWER_REWARD_QUOTIENT ≠ 0 ∧ cfg.PROPOSER_REWARD_QUOTIENT ≠ 0) :
+    slashValidator cfg ctx s i = toRes (Block.slash_validator cfg s i) := by
+  rw [slash_eq cfg ctx s i p hp hact hq hreg hsmall hs hz, slash_link cfg s i p hps hq hreg hsmall hs hz]
+
+theorem isSlashable_eq (v : Validator) (epoch : Nat) : isSlashable v epoch = is_slashable_validator v epoch := by
+  unfold isSlashable is_slashable_validator
+  cases v.slashed <;> by_cases h1 : v.activation_epoch > epoch <;> by_cases h2 : v.withdrawable_epoch ≤ epoch <;>
+    simp [h1, h2] <;> omega
+
+/-- (d) `phase0.ProcessProposerSlashing` = `process_proposer_slashing`, accept/reject and post-state -/
+theorem proposerSlashing_eq (cfg : Config) (ctx : Ctx) (s : State) (ps : ProposerSlashing) (p : Nat)
+    (hp : ctx.proposer = some p) (hps : Block.get_beacon_proposer_index cfg s = .ok p)
+    (hact : ctx.activeCount = (s.validators.filter (is_active_validator · (s.slot / cfg.SLOTS_PER_EPOCH))).length)
+    (hq : cfg.CHURN_LIMIT_QUOTIENT ≠ 0) (hreg : RegU64 s.validators) (hsmall : ExitSmall cfg s) (hs : SlashSmall cfg s)
+    (hz : cfg.EPOCHS_PER_SLASHINGS_VECTOR ≠ 0 ∧ min_slashing_penalty_quotient cfg s.fork ≠ 0 ∧
+          cfg.WHISTLEBLOWER_REWARD_QUOTIENT ≠ 0 ∧ cfg.PROPOSER_REWARD_QUOTIENT ≠ 0) :
+    processProposerSlashing cfg ctx s ps = toRes (Block.process_proposer_slashing cfg s ps) := by
+  unfold processProposerSlashing Block.process_proposer_slashing get_current_epoch compute_epoch_at_slot
+  simp only []
+  rw [slash_S_eq cfg ctx s _ p hp hps hact hq hreg hsmall hs hz]
+  simp only [toRes_bind, toRes_require, toRes_idx, guard_bind, rget_bind, isSlashable_eq]
+  generalize toRes (Block.slash_validator cfg s ps.signed_header_1.message.proposer_index) = fin
+  cases hv : s.validators[ps.signed_header_1.message.proposer_index]? with
+  | none =>
+    have : ¬ ps.signed_header_1.message.proposer_index < s.validators.length := by
+      intro hlt; simp [List.getElem?_eq_getElem hlt] at hv
+    simp [this]
+  | some v =>
+    have hlt : ps.signed_header_1.message.proposer_index < s.validators.length := (List.getElem?_eq_some_iff.mp hv).1
+    simp only [hlt, decide_true, if_true]
+    close_cases
+
+/-- what an accepted `slash_validator` leaves behind, field by field -/
+theorem slash_pure_shape (cfg : Config) (s s' : State) (i p : Nat) (h : Block.slash_validator_pure cfg s i p = some s') :
+    ∃ (v : Validator) (sl b nb pb pr W : Nat),
+      (initiate_validator_exit_pure cfg (s.slot / cfg.SLOTS_PER_EPOCH) s.validators i)[i]? = some v ∧
+      s'.validators = (initiate_validator_exit_pure cfg (s.slot / cfg.SLOTS_PER_EPOCH) s.validators i).set i
+        { v with slashed := true, withdrawable_epoch := max v.withdrawable_epoch (s.slot / cfg.SLOTS_PER_EPOCH + cfg.EPOCHS_PER_SLASHINGS_VECTOR) } ∧
+      s.slashings[s.slot / cfg.SLOTS_PER_EPOCH % cfg.EPOCHS_PER_SLASHINGS_VECTOR]? = some sl ∧
+      s'.slashings = s.slashings.set (s.slot / cfg.SLOTS_PER_EPOCH % cfg.EPOCHS_PER_SLASHINGS_VECTOR) (sl + v.effective_balance) ∧
+      s.balances[i]? = some b ∧ nb ≤ b ∧ (s.balances.set i nb)[p]? = some pb ∧ pr ≤ W ∧ W ≤ v.effective_balance ∧
+      s'.balances = ((s.balances.set i nb).set p (pb + pr)).set p (pb + pr + (W - pr)) ∧
+      s'.slot = s.slot ∧ s'.randao_mixes = s.randao_mixes ∧ s'.fork = s.fork := by
+  unfold Block.slash_validator_pure at h
+  simp only [] at h
+  split at h
+  · cases h
+  split at h
+  · cases h
+  split at h
+  · cases h
+  rename_i v hv
+  split at h
+  · cases h
+  split at h
+  · cases h
+  rename_i sl hsl
+  split at h
+  · cases h
+  split at h
+  · cases h
+  rename_i b hb
+  split at h
+  · cases h
+  rename_i pb hpb
+  split at h
+  · cases h
+  rename_i pb2 hpb2
+  have hpl : p < (s.balances.set i (if v.effective_balance / min_slashing_penalty_quotient cfg s.fork > b then 0
+      else b - v.effective_balance / min_slashing_penalty_quotient cfg s.fork)).length := (List.getElem?_eq_some_iff.mp hpb).1
+  rw [List.getElem?_set_self hpl] at hpb2
+  cases hpb2
+  cases h
+  refine ⟨v, sl, b, _, pb, _, v.effective_balance / cfg.WHISTLEBLOWER_REWARD_QUOTIENT, hv, rfl, hsl, rfl, hb, ?_, hpb, ?_,
+    Nat.div_le_self _ _, rfl, rfl, rfl, rfl⟩
+  · generalize v.effective_balance / min_slashing_penalty_quotient cfg s.fork = pen
+    split <;> omega
+  · split
+    · exact Nat.div_le_self _ _
+    · unfold PROPOSER_WEIGHT WEIGHT_DENOMINATOR; omega
+
 end Zrnt.Proofs.BlockM
